@@ -42,6 +42,22 @@ theorem minOpt_none {l : List Nat} (h : minOpt l = none) : l = [] := by
     simp only [minOpt] at h
     cases hr : minOpt r <;> simp [hr] at h
 
+/-- the sleep computed for the event thread is never 0, the value every backend reads as "wait forever"
+    (obligation over the expression regenerated from ares_event_thread()) -/
+theorem waitMs_pos (rem : Nat) : 0 < waitMs rem := by
+  unfold waitMs Cares.Generated.Ev.timeoutMs
+  omega
+
+/-- … and oversleeps the remaining time by at most one millisecond -/
+theorem waitMs_le (rem : Nat) : waitMs rem ≤ rem + 1 := by
+  unfold waitMs Cares.Generated.Ev.timeoutMs
+  omega
+
+/-- … and is not shorter than the remaining time (the thread does not spin before a deadline) -/
+theorem waitMs_ge (rem : Nat) : rem ≤ waitMs rem := by
+  unfold waitMs Cares.Generated.Ev.timeoutMs
+  omega
+
 /-- the timeout computed by the event thread covers every deadline pending at that moment -/
 theorem sleepUntil_covers (s : St) : ∀ d ∈ s.deadlines, ∃ t, sleepUntil s = some t ∧ t ≤ max d s.now + 1 := by
   intro d hd
@@ -49,10 +65,12 @@ theorem sleepUntil_covers (s : St) : ∀ d ∈ s.deadlines, ∃ t, sleepUntil s 
   cases hm : minOpt s.deadlines with
   | none => rw [minOpt_none hm] at hd; simp at hd
   | some m =>
-    have := minOpt_le hm d hd
-    refine ⟨_, rfl, ?_⟩
+    have h1 := minOpt_le hm d hd
+    have h2 := waitMs_pos (m - s.now)
+    have h3 := waitMs_le (m - s.now)
     simp only []
-    split <;> omega
+    rw [if_neg (by omega)]
+    exact ⟨_, rfl, by omega⟩
 
 /-- the event thread's own step can only *enter* the waiting state from `inTimeout` (with the timeout just
     computed) or stay in it unchanged -/
